@@ -70,6 +70,10 @@ func sumByCommodity(postings []ast.Posting) map[string]decimal.Decimal {
 			var quantity decimal.Decimal
 			if p.Cost.IsTotal {
 				quantity = p.Cost.Amount.Quantity
+				if p.Amount.Quantity.IsZero() {
+					// a zero quantity costs nothing (hledger: total cost × signum of the quantity)
+					quantity = decimal.Zero
+				}
 			} else {
 				quantity = p.Cost.Amount.Quantity.Mul(p.Amount.Quantity.Abs())
 			}
